@@ -6,18 +6,9 @@
 //! exit 0: held on everything explored; exit 1: "VIOLATION property=<id> replay=<path>";
 //! exit 2: infrastructure problem (never a violation).
 
-mod checks;
-mod conc;
-mod gen;
-mod hooks;
-mod known;
-mod model;
-mod runner;
-mod sched;
-mod seq;
-mod spec;
 
-use runner::*;
+use plv::checks;
+use plv::runner::*;
 
 fn verif_root() -> String {
     std::env::var("VERIF_ROOT").unwrap_or_else(|_| "/verif".to_string())
@@ -61,6 +52,12 @@ fn run_check(id: &str, cfg: &RunCfg) -> Option<Report> {
 }
 
 fn replay_check(id: &str, v: &serde_json::Value, cfg: &RunCfg) -> Option<Result<(), String>> {
+    if v["engine"] == "fuzz_bytes" {
+        if let Some(o) = v["oracle"].as_str() {
+            std::env::set_var("PLV_ORACLE", o);
+        }
+        return Some(plv::fuzzdec::replay_bytes(v["target"].as_str().unwrap_or(""), v["hex"].as_str().unwrap_or("")));
+    }
     Some(match id {
         "C01" => checks::hist::replay(cfg, &checks::hist::C01, v),
         "C02" => checks::hist::replay(cfg, &checks::hist::C02, v),
@@ -104,6 +101,94 @@ fn main() {
     install_quiet_panic_hook();
     let id = args[1].as_str();
     let root = verif_root();
+    if id == "fuzzcase" {
+        // plv fuzzcase <target> <artifact file> <Cxx> : turn a libFuzzer artifact into a replay file
+        let target = args[2].as_str();
+        let file = args.get(3).unwrap_or_else(|| usage());
+        let prop = args.get(4).map(|s| s.as_str()).unwrap_or("C18");
+        let data = std::fs::read(file).unwrap_or_else(|e| {
+            eprintln!("cannot read {file}: {e}");
+            std::process::exit(2)
+        });
+        let hex: String = data.iter().map(|b| format!("{:02x}", b)).collect();
+        let mut v = serde_json::json!({"property": prop, "engine": "fuzz_bytes", "target": target, "hex": hex});
+        if let Ok(o) = std::env::var("PLV_ORACLE") {
+            v["oracle"] = serde_json::json!(o);
+        }
+        if target == "parse_any" {
+            if let Some((entry, text)) = plv::fuzzdec::parse_case_parts(&data) {
+                v["decoded"] = serde_json::json!({"entry": entry, "text": text});
+            }
+        }
+        let path = save_replay(prop, &v, &format!("{root}/replays"));
+        println!("{path}");
+        std::process::exit(0);
+    }
+    if id == "corpus" {
+        // plv corpus <target> <dir> : write a small deterministic seed corpus
+        let target = args[2].as_str();
+        let dir = args.get(3).unwrap_or_else(|| usage());
+        let _ = std::fs::create_dir_all(dir);
+        let mut n = 0;
+        if target == "parse_any" {
+            use proptest::strategy::{Strategy, ValueTree};
+            let mut runner = proptest::test_runner::TestRunner::deterministic();
+            let strat = checks::codec::val();
+            for i in 0..300 {
+                let v = strat.new_tree(&mut runner).unwrap().current();
+                let (t, j, te, je) = checks::c18::encodings(&v);
+                if let Some(t) = t {
+                    if t.len() < 3000 {
+                        let mut b = vec![te as u8];
+                        b.extend_from_slice(t.as_bytes());
+                        std::fs::write(format!("{dir}/t{i:03}"), b).unwrap();
+                        n += 1;
+                    }
+                }
+                if j.len() < 3000 {
+                    let mut b = vec![je as u8];
+                    b.extend_from_slice(j.as_bytes());
+                    std::fs::write(format!("{dir}/j{i:03}"), b).unwrap();
+                    n += 1;
+                }
+            }
+        } else {
+            let mut x = 0x1234_5678_9abc_def0u64;
+            for i in 0..96 {
+                let len = 8 + (i * 5) % 200;
+                let bytes: Vec<u8> = (0..len)
+                    .map(|_| {
+                        x = splitmix(x);
+                        (x >> 24) as u8
+                    })
+                    .collect();
+                std::fs::write(format!("{dir}/r{i:03}"), bytes).unwrap();
+                n += 1;
+            }
+        }
+        println!("wrote {n} corpus files to {dir}");
+        std::process::exit(0);
+    }
+    if id == "fuzz-merge" {
+        // plv fuzz-merge <Cxx> <summary.json> : add the libFuzzer campaign's figures to the evidence file
+        let prop = args[2].as_str();
+        let summary: serde_json::Value = serde_json::from_str(&std::fs::read_to_string(&args[3]).unwrap_or_default()).unwrap_or(serde_json::json!({}));
+        let path = std::env::var("VERIF_EVIDENCE").unwrap_or_else(|_| format!("{root}/evidence/{prop}.json"));
+        if let Ok(t) = std::fs::read_to_string(&path) {
+            if let Ok(mut ev) = serde_json::from_str::<serde_json::Value>(&t) {
+                let execs = summary["executions"].as_u64().unwrap_or(0);
+                ev["coverage"]["libfuzzer"] = summary.clone();
+                if let Some(e) = ev["coverage"]["evaluations"].as_u64() {
+                    ev["coverage"]["evaluations"] = serde_json::json!(e + execs);
+                }
+                if summary["crashes"].as_u64().unwrap_or(0) > 0 {
+                    ev["violations"] = serde_json::json!(1);
+                }
+                std::fs::write(&path, serde_json::to_string_pretty(&ev).unwrap()).unwrap();
+            }
+        }
+        std::process::exit(0);
+    }
     if id == "witnesses" {
         // (re)write the hand-written witness replay files of the known findings
         let dir = format!("{root}/known");
